@@ -79,6 +79,7 @@ pub fn run(ctx: &mut Ctx) {
 
     // corner enumeration: every combination of empty / one-byte fields, limit 0 / 1,
     // extension space empty / one empty entry / one non-empty entry (2^4 * 2 * 3 = 96 sets)
+    ctx.seen("exhaustive_subspaces", "C19: all 96 combinations of empty/one-byte fields, limit 0/1, extension space {empty, one empty entry, one entry}; all 3x3 current/proposed variant combinations");
     ctx.phase("corners", 96, |ctx, k| {
         let bit = |i: u64| (k >> i) & 1 == 1;
         let b = |on: bool| if on { vec![0x51u8] } else { vec![] };
